@@ -81,6 +81,26 @@ class PathCtx:
         self.unknown_forks = 0
         self.side = []
         self.last_backend = "z3"
+        self.last_witness = None
+
+    def _cross_check(self, name, negated):
+        """thorough tier: an obligation z3 discharged (pc /\\ negated is unsat) is re-checked by cvc5"""
+        ex = self.ex
+        self.solver.push()
+        try:
+            self.solver.add(negated)
+            txt = self.solver.to_smt2()
+        finally:
+            self.solver.pop()
+        r2 = cvc5_inproc(txt, ex.cross_ms, ex.logic)
+        ex.cross_stats["rechecked"] += 1
+        if r2 == z3.unsat:
+            ex.cross_stats["agreed"] += 1
+        elif r2 == z3.sat:
+            ex.cross_stats["disagreed"] += 1
+            ex.disagreements.append(name)
+        else:
+            ex.cross_stats["cvc5_unknown"] += 1
 
     # ------------------------------------------------------------ bookkeeping
     def replaying(self):
@@ -301,6 +321,8 @@ class PathCtx:
         r, m, dt = self._check(z3.Or(*[z3.Not(c) for c, _ in self.side]))
         if r == z3.unsat:
             self.ex.record(Obligation(name, "discharged", seconds=dt))
+            if self.ex.cross:
+                self._cross_check(name, z3.Or(*[z3.Not(c) for c, _ in self.side]))
         else:
             bad = ""
             if m is not None:
@@ -332,6 +354,8 @@ class PathCtx:
         r, m, dt = self._check(z3.Not(e))
         if r == z3.unsat:
             self.ex.record(Obligation(full, "discharged", seconds=dt, backend=self.last_backend))
+            if self.ex.cross:
+                self._cross_check(full, z3.Not(e))
         elif r == z3.sat:
             self.ex.record(Obligation(full, "failed", detail=detail, model=self.model_dict(m),
                                       seconds=dt, path=repr(self.decisions)))
@@ -357,6 +381,8 @@ class PathCtx:
         if r == z3.unsat:
             raise Infeasible()
         self.ex.covers += 1
+        if self.ex.collect_witnesses and m is not None:
+            self.last_witness = self.model_dict(m)
         return m
 
     def model_dict(self, m):
@@ -472,9 +498,42 @@ def cvc5_check(smt2, timeout_ms, logic):
         os.unlink(name)
 
 
+def cvc5_inproc(smt2, timeout_ms, logic):
+    """independent back end for the thorough tier: the cvc5 Python API (wheel) parsing the SMT-LIB export in-process;
+    returns z3.sat / z3.unsat / None (unknown, timeout or cvc5 unavailable)"""
+    try:
+        import cvc5
+    except Exception:       # noqa: BLE001
+        return cvc5_check(smt2, timeout_ms, logic)
+    try:
+        slv = cvc5.Solver()
+        slv.setOption("tlimit-per", str(int(timeout_ms)))
+        ip = cvc5.InputParser(slv)
+        ip.setStringInput(cvc5.InputLanguage.SMT_LIB_2_6, "(set-logic %s)\n%s" % (logic or "ALL", smt2), "vc")
+        sm = ip.getSymbolManager()
+        res = None
+        while True:
+            cmd = ip.nextCommand()
+            if cmd.isNull():
+                break
+            out = cmd.invoke(slv, sm).strip()
+            if out in ("sat", "unsat", "unknown"):
+                res = out
+        return {"sat": z3.sat, "unsat": z3.unsat}.get(res)
+    except Exception:       # noqa: BLE001
+        return None
+
+
 class Explorer:
     def __init__(self, label, timeout_ms=30000, max_paths=20000, max_depth=4000, logic="QF_BV",
                  quick_ms=1500, use_cvc5=True):
+        self.cross = os.environ.get("PYVC_CROSS", "") == "1"          # re-discharge with cvc5 (thorough tier)
+        self.cross_ms = int(os.environ.get("PYVC_CROSS_MS", "20000"))
+        self.cross_stats = {"rechecked": 0, "agreed": 0, "cvc5_unknown": 0, "disagreed": 0}
+        self.disagreements = []
+        self.collect_witnesses = os.environ.get("PYVC_WITNESSES", "") == "1"
+        self.witness_cap = int(os.environ.get("PYVC_WITNESS_CAP", "200"))
+        self.witnesses = []
         self.label = label
         self.logic = logic
         self.solver = z3.SolverFor(logic) if logic else z3.Solver()
@@ -512,8 +571,14 @@ class Explorer:
     def run(self, body):
         """body(ctx) executes one path; called once per path."""
         self.stack = [[]]
+        t_start = time.time()
+        budget = float(os.environ.get("PYVC_UNIT_BUDGET_S", "1500"))
         while self.stack:
             prefix = self.stack.pop()
+            if time.time() - t_start > budget:
+                self.record(Obligation(self.label + "/paths", "undecided",
+                                       detail="the unit did not finish within %.0f s (%d paths explored)" % (budget, self.paths)))
+                break
             if self.paths >= self.max_paths:
                 self.record(Obligation(self.label + "/paths", "undecided",
                                        detail="more than %d paths" % self.max_paths))
@@ -522,9 +587,13 @@ class Explorer:
             c = PathCtx(self, prefix)
             sym.set_ctx(c)
             self.solver.push()
+            nfail = len(self.failed) + len(self.undecided)
             try:
                 body(c)
                 c.flush_side_conditions()
+                if (self.collect_witnesses and c.last_witness is not None and len(self.witnesses) < self.witness_cap
+                        and nfail == len(self.failed) + len(self.undecided)):
+                    self.witnesses.append(c.last_witness)
             except Infeasible:
                 pass
             except PathEnd:
